@@ -47,3 +47,11 @@ package types
 //@   requires generalizedType != nil
 //@   invariant 0: i == emitted("%s.%s = type(\"%s.%s\", (%s,), {\"index\": %d, \"tag\": \"%s\"})\n")
 //@   iteration 0: non_null_cases_are_numbered_consecutively: (tc.Type != nil ==> emitted("%s.%s = type(\"%s.%s\", (%s,), {\"index\": %d, \"tag\": \"%s\"})\n") == 1 && emittedArg("%s.%s = type(\"%s.%s\", (%s,), {\"index\": %d, \"tag\": \"%s\"})\n", 0, 5, int) == i && emittedArg("%s.%s = type(\"%s.%s\", (%s,), {\"index\": %d, \"tag\": \"%s\"})\n", 0, 6, string) == tc.Tag) && (tc.Type == nil ==> emitted("%s.%s = type(\"%s.%s\", (%s,), {\"index\": %d, \"tag\": \"%s\"})\n") == 0)
+
+// C08 (the generated Python module imports): every union case class is generic over the type variable `_T`. The variable
+// is declared immediately before the first union class of the module, wherever that union sits - in a type definition
+// or in a protocol step (`events: !stream {items: [Sample, string]}` in a namespace whose definitions hold no union).
+//@ func writeUnionClasses$1
+//@   property C08
+//@   ensures the_type_variable_is_declared_before_the_first_union_class: called(writeUnionClass) && old(len(unions)) == 0 ==> emitted("_T = typing.TypeVar('_T')\n\n") == 1
+
